@@ -1411,6 +1411,3 @@ macro_rules! composite_pixels_harness { ($name:ident, $ck:expr, $layer:expr, $so
 // @ob id=K.composite_pixels_plain props=C02,C03 kind=bounded:surface=3x2,concrete-geometry tier=quick timeout=900 fns=DrawTarget::composite,DrawTarget::choose_blitter,ShaderMaskBlitter::blit_span
 // @+ desc="pixel level, real blitters, SrcOver, no clip, no layer: every surface pixel (symbolic contents and coverage) equals over_in(src, prev, coverage) inside rect ∩ surface when coverage != 0 and is bit-identical otherwise; kernels arbitrary functions"
 composite_pixels_harness!(k_composite_pixels_plain, 0, false, true);
-// @ob id=K.composite_pixels_clip_layer props=C02,C03,C05,C06 kind=bounded:surface=3x2,concrete-geometry tier=quick timeout=900 fns=DrawTarget::composite,DrawTarget::choose_blitter,ShaderClipMaskBlitter::blit_span
-// @+ desc="pixel level, SrcOver under a clip PATH into a layer at offset (1,0): layer pixel = over_in_in(src, prev, coverage, clip coverage at the DEVICE position), the surface beneath untouched, nothing outside rect ∩ clip bounds ∩ layer"
-composite_pixels_harness!(k_composite_pixels_clip_layer, 2, true, true);
